@@ -243,13 +243,13 @@ def check_which(case, col=None):
 # ---------------------------------------------------------------------------
 # probe child
 
-PROBE_ALPHA = ['a', 'b', 'Z', '0', '-', ' ', '\t', "'", '"', '\\', 'é', '€', '*', '$']
+PROBE_ALPHA = ['a', 'b', 'Z', '0', '-', ' ', ' ', '\t', "'", '"', '\\', 'é', '€', '*', '$', '\xa0']
 
 
 @st.composite
 def probe_cases(draw):
     args = draw(st.lists(st.text(alphabet=PROBE_ALPHA, min_size=1, max_size=5), min_size=0, max_size=4))
-    form = draw(st.sampled_from(['string', 'string', 'list', 'popen', 'bare']))
+    form = draw(st.sampled_from(['string', 'string', 'list', 'popen', 'popen-string', 'bare']))
     enc = draw(st.sampled_from([None, None, 'utf-8', 'latin-1']))
     if enc == 'latin-1':
         args = [a.replace('€', 'é') for a in args]
@@ -326,7 +326,12 @@ def check_probe(case, col=None):
         launches = 2 if case.get('relaunch') else 1
         for attempt in range(launches):
             with guard('launch %s' % case['form']):
-                if case['form'] == 'popen':
+                if case['form'] == 'popen-string':
+                    # one command string (split by shlex in PopenSpawn), padded with white space at both ends
+                    line = ' '.join(_render_arg(a, s_) for a, s_ in zip(full, case['styles'] + ['esc'] * 10))
+                    pad = ['', ' ', '\t ', '  '][len(args) % 4]
+                    child = PopenSpawn(pad + line + pad, cwd=cwd, env=env, timeout=20, **kw)
+                elif case['form'] in ('popen', 'popen-string'):
                     child = PopenSpawn(full, cwd=cwd, env=env, timeout=20, **kw)
                 else:
                     pk = dict(cwd=cwd, env=env, echo=case['echo'], ignore_sighup=case['sighup'], timeout=20, **kw)
@@ -339,7 +344,7 @@ def check_probe(case, col=None):
                         child = pexpect.spawn(line, **pk)
                 child.expect(pexpect.EOF)
                 out = child.before
-                if case['form'] != 'popen':
+                if case['form'] not in ('popen', 'popen-string'):
                     child.close()
                 else:
                     child.wait()
@@ -350,7 +355,7 @@ def check_probe(case, col=None):
                 raise Violation('probe-no-report', 'the child did not report%s (output %r)' % (' at the second launch with the same objects' if attempt else '', out[-200:]))
             rep = json.loads(bytes.fromhex(m.group(1)).decode('utf-8'))
             got_argv = [bytes.fromhex(h) for h in rep['argv']]
-            if enc and case['form'] != 'popen':
+            if enc and case['form'] not in ('popen', 'popen-string'):
                 want_argv = [a.encode(enc) for a in args]
             else:
                 want_argv = [os.fsencode(a) for a in args]
@@ -378,7 +383,7 @@ def check_probe(case, col=None):
                                 '%d only in (or different in) the request %r'
                                 % (len(only_child), sorted(k for k, v in only_child)[:4],
                                    len(only_req), sorted(k for k, v in only_req)[:4]))
-            if case['form'] != 'popen':
+            if case['form'] not in ('popen', 'popen-string'):
                 want_dims = case['dims'] or [24, 80]
                 if rep['winsize'] != list(want_dims):
                     raise Violation('probe-winsize', 'child window size %r, requested %r' % (rep['winsize'], want_dims))
